@@ -223,8 +223,9 @@ func Convert(value any, typ reflect.Type) (any, error) { //nolint: gocyclo
 			return result.Interface(), nil
 		case reflect.Map:
 			result := reflect.MakeSlice(typ, 0, rv.Len())
-			for _, key := range SortedMapKeys(rv) {
-				item, err := Convert(rv.MapIndex(key).Interface(), typ.Elem())
+			_, elems := SortedMapEntries(rv)
+			for _, elem := range elems {
+				item, err := Convert(elem.Interface(), typ.Elem())
 				if err != nil {
 					return nil, err
 				}
